@@ -241,6 +241,9 @@ def size_passed(fn, callee, param="size"):
 
 
 def generate(o):
+    from .c11 import tracked_item
+
+    item = tracked_item(o)
     conv = Src("orso/converters.py")
     schema = Src("orso/schema.py")
     frame = Src("orso/dataframe.py")
@@ -474,29 +477,56 @@ def generate(o):
         ta = _decorators(find_function(conv.tree, "to_arrow")) or _decorators(find_function(frame.tree, "arrow", "DataFrame"))
         return [af_memo, h_memo, ta]
 
-    via_helper, helper_memo, col_memo = o.item("arrowexpr.schema_sites.from_arrow", schema_sites, [False, False, False])
-    af_memo, to_helper_memo, to_arrow_memo = o.item("arrowexpr.schema_sites.to_arrow", to_sites, [False, False, False])
-    accepted, itered = o.item("arrowexpr.from_arrow.input_dispatch", input_dispatch, [["Generator", "list", "tuple"], ["list", "tuple"]])
-    ip, isc = o.item("arrowexpr.init.decimal_defaults", init_defaults, [PINNED_R3["init.precision"], PINNED_R3["init.scale"]])
-    g_arrow = o.item("arrowexpr.glue.DataFrame.arrow", lambda: size_passed(find_function(frame.tree, "arrow", "DataFrame"), "to_arrow"),
+    def conversion_writes_frame():
+        # does anything on the conversion path (DataFrame.arrow / .pandas, converters.to_arrow / to_pandas) store
+        # something ON the frame - an attribute of `self` / `dataset` assigned, `setattr`, `object.__setattr__`?
+        # (rebinding the local name `dataset = dataset.head(size)` is not a write on the frame)
+        fns = [find_function(frame.tree, "arrow", "DataFrame"), find_function(frame.tree, "pandas", "DataFrame"),
+               find_function(conv.tree, "to_arrow"), find_function(conv.tree, "to_pandas")]
+        for fn in fns:
+            for n in ast.walk(fn):
+                tgts = []
+                if isinstance(n, ast.Assign):
+                    tgts = n.targets
+                elif isinstance(n, (ast.AugAssign, ast.AnnAssign)):
+                    tgts = [n.target]
+                elif isinstance(n, ast.NamedExpr):
+                    tgts = [n.target]
+                for t in tgts:
+                    for e in (t.elts if isinstance(t, (ast.Tuple, ast.List)) else [t]):
+                        while isinstance(e, ast.Subscript):
+                            e = e.value
+                        if isinstance(e, ast.Attribute) and isinstance(e.value, ast.Name) and e.value.id in ("self", "dataset"):
+                            return True
+                if isinstance(n, ast.Call) and ast.unparse(n.func).split(".")[-1] in ("setattr", "__setattr__") and n.args \
+                        and ast.unparse(n.args[0]) in ("self", "dataset"):
+                    return True
+        return False
+
+    writes_frame = item("arrowexpr.conversion_writes_frame", conversion_writes_frame, False)
+    via_helper, helper_memo, col_memo = item("arrowexpr.schema_sites.from_arrow", schema_sites, [False, False, False])
+    af_memo, to_helper_memo, to_arrow_memo = item("arrowexpr.schema_sites.to_arrow", to_sites, [False, False, False])
+    accepted, itered = item("arrowexpr.from_arrow.input_dispatch", input_dispatch, [["Generator", "list", "tuple"], ["list", "tuple"]])
+    ip, isc = item("arrowexpr.init.decimal_defaults", init_defaults, [PINNED_R3["init.precision"], PINNED_R3["init.scale"]])
+    g_arrow = item("arrowexpr.glue.DataFrame.arrow", lambda: size_passed(find_function(frame.tree, "arrow", "DataFrame"), "to_arrow"),
                      PINNED_R3["glue.identity"])
-    g_pandas = o.item("arrowexpr.glue.DataFrame.pandas", lambda: size_passed(find_function(frame.tree, "pandas", "DataFrame"), "to_pandas"),
+    g_pandas = item("arrowexpr.glue.DataFrame.pandas", lambda: size_passed(find_function(frame.tree, "pandas", "DataFrame"), "to_pandas"),
                       PINNED_R3["glue.identity"])
-    g_topandas = o.item("arrowexpr.glue.to_pandas", lambda: size_passed(find_function(conv.tree, "to_pandas"), "arrow"),
+    g_topandas = item("arrowexpr.glue.to_pandas", lambda: size_passed(find_function(conv.tree, "to_pandas"), "arrow"),
                         PINNED_R3["glue.identity"])
-    keeps_first = o.item("arrowexpr.from_arrow.stream_keeps_first", stream_keeps_first, True)
-    loops = o.item("arrowexpr.next.fetch_loops", fetch_loops, True)
+    keeps_first = item("arrowexpr.from_arrow.stream_keeps_first", stream_keeps_first, True)
+    loops = item("arrowexpr.next.fetch_loops", fetch_loops, True)
 
     v = {}
-    v["stop"] = o.item("arrowexpr.next.stop_test", stop_test, PINNED["next.stop_test"])
-    v["bump"] = o.item("arrowexpr.next.bump", bump, PINNED["next.bump"])
-    v["size_test"] = o.item("arrowexpr.from_arrow.size_test", size_test, PINNED["from_arrow.size_test"])
-    v["batch"] = o.item("arrowexpr.from_arrow.limited_batch", limited_batch, PINNED["from_arrow.limited_batch"])
-    v["inf"] = o.item("arrowexpr.from_arrow.unlimited_is_inf", unlimited_is_inf, True)
-    v["limit_test"] = o.item("arrowexpr.to_arrow.limit_test", limit_test, PINNED["to_arrow.limit_test"])
-    v["head_arg"] = o.item("arrowexpr.to_arrow.head_arg", head_arg, PINNED["to_arrow.head_arg"])
-    v["empty_test"] = o.item("arrowexpr.to_arrow.empty_test", empty_test, PINNED["to_arrow.empty_test"])
-    dp, ds = o.item("arrowexpr.arrow_field.decimal_args", decimal_args,
+    v["stop"] = item("arrowexpr.next.stop_test", stop_test, PINNED["next.stop_test"])
+    v["bump"] = item("arrowexpr.next.bump", bump, PINNED["next.bump"])
+    v["size_test"] = item("arrowexpr.from_arrow.size_test", size_test, PINNED["from_arrow.size_test"])
+    v["batch"] = item("arrowexpr.from_arrow.limited_batch", limited_batch, PINNED["from_arrow.limited_batch"])
+    v["inf"] = item("arrowexpr.from_arrow.unlimited_is_inf", unlimited_is_inf, True)
+    v["limit_test"] = item("arrowexpr.to_arrow.limit_test", limit_test, PINNED["to_arrow.limit_test"])
+    v["head_arg"] = item("arrowexpr.to_arrow.head_arg", head_arg, PINNED["to_arrow.head_arg"])
+    v["empty_test"] = item("arrowexpr.to_arrow.empty_test", empty_test, PINNED["to_arrow.empty_test"])
+    dp, ds = item("arrowexpr.arrow_field.decimal_args", decimal_args,
                     [PINNED["arrow_field.decimal_precision"], PINNED["arrow_field.decimal_scale"]])
 
     text = HEADER + "namespace Gen.ArrowExpr\n"
@@ -556,5 +586,8 @@ def generate(o):
     text += "def toArrowSchemaHelperMemoised : Bool := %s\n" % b(to_helper_memo)
     text += "/-- converters.py `to_arrow` / dataframe.py `DataFrame.arrow` carry a cache decorator -/\n"
     text += "def toArrowMemoised : Bool := %s\n" % b(to_arrow_memo)
+    text += ("/-- something on the conversion path (`DataFrame.arrow` / `.pandas`, `to_arrow` / `to_pandas`) assigns an attribute of the\n"
+             "frame it converts (a kept table, a flag ...): a conversion is then not a function of the rows the frame holds -/\n")
+    text += "def conversionWritesFrame : Bool := %s\n" % b(writes_frame)
     text += "end Gen.ArrowExpr\n"
     o.files["ArrowExpr.lean"] = text
